@@ -104,7 +104,7 @@ def check_result(ctx, spec, cfg, res, mdp, view, name, refpack=None):
     Vstar, Qstar = opt["V"], opt["Q"]
 
     # 4. initial value is the p0-expectation of the reported table
-    iv = sum(float(res.state_value[view.S[s]]) * p for s, p in view.p0)
+    iv = sum(float(res.state_value[view.S[s]]) * p for s, p in view.p0 if p > 0)
     ctx.check(close(float(res.initial_value), iv, 1e-12, 1e-12), f"C01.{name}.initial_value_expectation",
               lambda: f"initial_value={res.initial_value} but sum p0*state_value={iv}")
 
